@@ -405,7 +405,7 @@ class Interp:
     def zero_sized(self, ty, frame):
         ty = ty.strip()
         if ty.startswith("{closure@") or ty.startswith("{coroutine@") or ty.startswith("{async"):
-            return Agg(ty, [])
+            return ClosureAgg(ty, [], [], frame.tysub if frame is not None else None)
         m = re.match(r"^(?:unsafe )?(?:extern \"[^\"]*\" )?fn\(.*\{(.*)\}$", ty, re.S)
         if m:
             return FnRef(m.group(1))
@@ -468,7 +468,7 @@ class Interp:
         if k == "agg_adt":
             return self.make_adt(locs, rv[1], rv[2], frame)
         if k == "agg_closure":
-            return ClosureAgg(rv[1], [self.eval_operand(locs, o, frame) for o in rv[2].values()], list(rv[2].keys()))
+            return ClosureAgg(rv[1], [self.eval_operand(locs, o, frame) for o in rv[2].values()], list(rv[2].keys()), frame.tysub)
         if k == "len":
             a, lo, hi = as_list(self.read_place(locs, rv[1], frame))
             return hi - lo
@@ -914,8 +914,11 @@ class Interp:
                 env = Ptr([f], 0)
             else:
                 env = f
-            # closure bodies take the arguments untupled
-            return self.run_item(item, [env] + list(args), frame.tysub if frame is not None else None)
+            # closure bodies take the arguments untupled; generic parameters are those of the defining function
+            ts = getattr(f, "ts", None)
+            if ts is None and frame is not None:
+                ts = frame.tysub
+            return self.run_item(item, [env] + list(args), ts)
         if isinstance(f, PyFn):
             return f.fn(self, list(args))
         raise Unsupported("call of non-callable %r" % (f,))
